@@ -245,6 +245,9 @@ def check_wakeups(prog, events):
     cyc = set(cycles)
     evs = {(e["id"], e["t"]) for e in events if e["k"] == "ev"}
     honoured = 0
+    # a requester whose inputs are required valid legitimately skips its user code while they are not (C03's rule):
+    # for those the cycle itself is what is asserted here, the evaluation is left to the model comparison
+    gated = {n["id"] for n in expand(prog)[0] if n["kind"] == "timer1v"}
     for (i, made, when) in reqs:
         if when < start or when >= end:
             continue
@@ -252,7 +255,7 @@ def check_wakeups(prog, events):
             continue
         if when not in cyc:
             return ("wakeup_dropped", "id %d asked at %d for %d: no cycle at that time (cycles %s)" % (i, made, when, cycles[:30])), {}
-        if (i, when) not in evs:
+        if (i, when) not in evs and i not in gated:
             return ("wakeup_not_delivered", "id %d asked at %d for %d: cycle exists but the node was not evaluated" % (i, made, when)), {}
         honoured += 1
     return None, dict(requests=len(reqs), requests_honoured_in_window=honoured, requests_rejected_by_rule=rejected,
